@@ -1298,7 +1298,7 @@ func (x *Exec) buildFilter(with, without []string, excl bool, ft map[string]ecs.
 				}
 			} else {
 				rf.tf.Relations(rels...)
-				if x.filtersBuilt%4 == 1 {
+				if x.filtersBuilt%2 == 1 {
 					rf.tf.Relations() // a further call without targets adds nothing and takes nothing away
 				}
 			}
